@@ -280,7 +280,11 @@ impl ValGen {
                 let mut entries: Vec<(MV, MV)> = vec![];
                 for _ in 0..n {
                     // keys: scalars mostly, sometimes nested
-                    let k = if c.chance(24) { self.gen(c, depth + 1) } else { self.scalar(c) };
+                    // (a function value never equals anything, not even itself: as a key, or anywhere
+                    // inside a table used as a key, it makes an entry that can not be found again,
+                    // which is outside what the properties define - no function values in keys)
+                    let key_gen = ValGen { allow_nan: self.allow_nan, allow_func: false, max_depth: self.max_depth, max_entries: self.max_entries };
+                    let k = if c.chance(24) { key_gen.gen(c, depth + 1) } else { self.scalar(c) };
                     if k.has_nan() {
                         continue;
                     }
